@@ -21,7 +21,7 @@ import (
 )
 
 // MaxTasks bounds the number of tasks in one execution.
-const MaxTasks = 64
+const MaxTasks = 256
 
 // Status of a finished execution.
 type Status int
